@@ -1420,11 +1420,24 @@ class Stage:
             species, expr, p_args, p_kwargs = self._placeholders[k_old]
             ret._placeholders[k_new] = (species, renew(expr), p_args, p_kwargs)
 
+        if self._stages:
+            raise Exception("A stage that has sub-stages of its own cannot be used as a template.")
+
         ret.states = copy(self.states)
+        ret.qstates = copy(self.qstates)
         ret.controls = copy(self.controls)
         ret.algebraics = copy(self.algebraics)
         ret.parameters = deepcopy(self.parameters)
         ret.variables = deepcopy(self.variables)
+
+        # Signals keep their symbols (like states); the registry itself must not be shared
+        for k, v in self._signals.items():
+            AbstractSignal.register(ret._signals, k, AbstractSignal(v.order))
+        for k, v in self._signals.items():
+            if v.derivative is not None:
+                ret._signals[k].derivative = ret._signals[v.derivative.symbol]
+        for k, v in self._inf_inert.items(): ret._inf_inert[k] = renew(v)
+        for k, v in self._inf_der.items(): ret._inf_der[k] = renew(v)
 
         ret._offsets = deepcopy(self._offsets)
         ret._param_vals = copy(self._param_vals)
